@@ -605,6 +605,20 @@ def resolve_strategy_inline_recurse(path, base, decisions):
                 # TODO: Do inline merge
                 pass
 
+            elif k == 'attachments':
+                # Keep the attachments of both sides, as for conflicting
+                # attachments on an existing cell: those that differ are
+                # stored under LOCAL_name and REMOTE_name
+                latt = lcell.get(k, {})
+                ratt = rcell.get(k, {})
+                cell[k] = {}
+                for name in sorted(set(latt) | set(ratt)):
+                    if name in latt and name in ratt and latt[name] != ratt[name]:
+                        cell[k]["LOCAL_" + name] = latt[name]
+                        cell[k]["REMOTE_" + name] = ratt[name]
+                    else:
+                        cell[k][name] = latt[name] if name in latt else ratt[name]
+
             else:
                 raise ValueError('Conflict on unrecognized key: %r' % (k,))
 
